@@ -2,6 +2,7 @@ import Rooc.Wire
 import Rooc.Oracle
 import Rooc.Pre.Wire
 import Rooc.Pre.IterWire
+import Rooc.Pre.Graph
 namespace Rooc.Drv.C06
 open Rooc Sexp Rooc.Pre
 
@@ -29,6 +30,35 @@ def decFrag : Sexp → Option (Option String)
   | .list [.atom "node", .str s] => some (some s)
   | .list [.atom "other", _] => some none
   | _ => none
+
+def decEdge (src : String) : Sexp → Option (GEdge Float)
+  | .list [.atom "edge", .str d, .atom "none"] => some ⟨src, d, none⟩
+  | .list [.atom "edge", .str d, w] => (decNumS w : Option Float).map (fun x => ⟨src, d, some x⟩)
+  | _ => none
+def decNode : Sexp → Option (GNode Float)
+  | .list (.atom "node" :: .str n :: es) => (optAll (es.map (decEdge n))).map (fun es => ⟨n, es⟩)
+  | _ => none
+def decGraph : Sexp → Option (Graph Float)
+  | .list (.atom "graph" :: ns) => optAll (ns.map decNode)
+  | _ => none
+def encSpread (e : GEdge Float) : Sexp := .list [.str e.spread.1, .str e.spread.2.1, encNum e.spread.2.2]
+
+def decSVal : Sexp → Option (SVal Float)
+  | .list [.atom "num", x] => (decNumS x : Option Float).map .num
+  | .list [.atom "str", .str s] => some (.str s)
+  | .list [.atom "bool", .atom b] => some (.bool (b == "true"))
+  | _ => none
+/-- the name fragment Rust prints for the test values (integers and halves) -/
+def halfText (x : Float) : String :=
+  let neg := x < 0
+  let a := if neg then -x else x
+  let fl := Float.floor a
+  let body := if a == fl then toString (fl.toUInt64) else toString (fl.toUInt64) ++ ".5"
+  if neg then "-" ++ body else body
+def svalText : SVal Float → String
+  | .num x => halfText x
+  | .str s => s
+  | .bool b => if b then "T" else "F"
 
 def handleF : List Sexp → Sexp
   | [.atom "fold", .atom kind, .list leaves] =>
@@ -74,6 +104,28 @@ def handleF : List Sexp → Sexp
        | .ok none => app "ok" [.atom "undefined"]
        | .ok (some r) => app "ok" [encTree r]
        | .error _ => app "err" [.atom "OutOfBounds"])
+    | _, _ => app "err" [.atom "decode"]
+  | [.atom "graph", .atom what, g] =>
+    match decGraph g with
+    | none => app "err" [.atom "decode"]
+    | some g =>
+      match what with
+      | "edges" => app "ok" (g.edges.map encSpread)
+      | "nodes" => app "ok" (g.nodes.map (fun n => .str n.name))
+      | "neighall" => app "ok" ((g.nodes.flatMap (fun n => (Graph.neighEdges n).map (fun e => (n.name, e)))).map
+          (fun p => .list [.str p.1, .str p.2.spread.2.1, encNum p.2.spread.2.2]))
+      | _ => app "err" [.atom "bad-request"]
+  | [.atom "graph", .atom "neighof", g, .str name] =>
+    match decGraph g with
+    | none => app "err" [.atom "decode"]
+    | some g => (match Graph.neighEdgesOf name g with
+      | some es => app "ok" (es.map (fun e => .list [.str e.spread.2.1, encNum e.spread.2.2]))
+      | none => app "err" [.atom "Other"])
+  | [.atom "svset", .atom f, .list a, .list b] =>
+    match optAll (a.map decSVal), optAll (b.map decSVal) with
+    | some a, some b =>
+      let r := match f with | "union" => svalUnion a b | "intersection" => svalInter a b | _ => svalDiff a b
+      app "ok" (r.map (fun v => .str (svalText v)))
     | _, _ => app "err" [.atom "decode"]
   | [.atom "expandme", e] =>
     match ME.dec e with
